@@ -128,9 +128,11 @@ def set_partitions_pre(s, divisions, ascending=True, na_position="last"):
                 - divisions_notna.searchsorted(s[not_null], side="right")
                 - 1
             )
-    partitions[(partitions < 0) | (partitions >= len(divisions) - 1)] = (
-        len(divisions) - 2 if ascending else 0
-    )
+    # Out-of-range values go to the nearest partition: ``partitions < 0`` are
+    # the values before the first output partition, ``partitions >= npartitions``
+    # the ones after the last
+    partitions[partitions >= len(divisions) - 1] = len(divisions) - 2
+    partitions[partitions < 0] = 0
     nas = s.isna()
     # We could be a ndarray already (datetime dtype)
     nas = getattr(nas, "values", nas)
